@@ -66,9 +66,11 @@ func init() {
 
 	register(&Property{
 		ID: "C02", Title: "Every message is applicable: no dangling references or stray events",
-		Explanation: "Decides: the typestate table of Subscription.state (who may move a subscription into which state); populate → hand the frame over → release on every path (PAIR/rpc-resources); the shapes the collector relies on: ReleaseRPCResources marks sent, descends into every reference and then opens the loading gate; populateResources* count an edge once, skip sent resources and mark ToSend before descending; removeCount's counter effects follow its direct/sent/tryDelete arguments; every disposed subscription leaves the connection's table (DOM/ref-shapes); references are released with the parent's sent-ness as it was while the edge was counted (PROV/sent-flag: known finding F6); the sent-count is raised once per created edge (PAIR/edge-sent-once: known finding F8); a re-sendable resource has a current snapshot and a closed gate (PAIR/snapshot-current: known finding F13); no change on a collection, no add/remove on a model, decoded indexes inside [0,len] (DOM/index-kind-guard); no event before the hand-over (DOM/event-gate); recursion census. NOT decided — and this is the core of the property: correctness of the two-pass reference-count collector tryDelete/Unsend and of the indirectsent arithmetic on arbitrary reference graphs. Added after seeding round 7: the encoding cached for the latest protocol is read by MarshalJSON only, so a legacy connection is never handed bytes in the wrong dialect (WHO/encoding-cache). Added after seeding round 8: collection snapshots held by still-loading subscriptions are never written in place (DOM/copy-on-write). Added after seeding round 9: marshalers put text into a frame only through json.Marshal, so every frame is well-formed (PROV/json-text). Added after seeding round 10: CONTRA/stale-test (see C01) for the collector's sent-count bookkeeping. Added after seeding round 11: the unsubscribe event releases every direct subscription (DOM/revoke), so no later event targets a resource the client dropped. Added after seeding round 12: the already-handed-over quick exit of populateResources* is taken for exactly the states to-send and sent, by constant propagation over the seven states (TABLE/populate-skip); a release with the collect flag set reaches the collector on every path (DOM/gc-after-release). Added after the mutation sweep: the continuation of an add/change event that waited for referenced resources sends only under state != disposed, tested after the wait (DOM/ready-continuation-live); a map member created on demand is written only where it exists (DOM/map-made).",
+		Explanation: "Decides: the typestate table of Subscription.state (who may move a subscription into which state); populate → hand the frame over → release on every path (PAIR/rpc-resources); the shapes the collector relies on: ReleaseRPCResources marks sent, descends into every reference and then opens the loading gate; populateResources* count an edge once, skip sent resources and mark ToSend before descending; removeCount's counter effects follow its direct/sent/tryDelete arguments; every disposed subscription leaves the connection's table (DOM/ref-shapes); references are released with the parent's sent-ness as it was while the edge was counted (PROV/sent-flag: known finding F6); the sent-count is raised once per created edge (PAIR/edge-sent-once: known finding F8); a re-sendable resource has a current snapshot and a closed gate (PAIR/snapshot-current: known finding F13); no change on a collection, no add/remove on a model, decoded indexes inside [0,len] (DOM/index-kind-guard); no event before the hand-over (DOM/event-gate); recursion census. NOT decided — and this is the core of the property: correctness of the two-pass reference-count collector tryDelete/Unsend and of the indirectsent arithmetic on arbitrary reference graphs. Added after seeding round 7: the encoding cached for the latest protocol is read by MarshalJSON only, so a legacy connection is never handed bytes in the wrong dialect (WHO/encoding-cache). Added after seeding round 8: collection snapshots held by still-loading subscriptions are never written in place (DOM/copy-on-write). Added after seeding round 9: marshalers put text into a frame only through json.Marshal, so every frame is well-formed (PROV/json-text). Added after seeding round 10: CONTRA/stale-test (see C01) for the collector's sent-count bookkeeping. Added after seeding round 11: the unsubscribe event releases every direct subscription (DOM/revoke), so no later event targets a resource the client dropped. Added after seeding round 12: the already-handed-over quick exit of populateResources* is taken for exactly the states to-send and sent, by constant propagation over the seven states (TABLE/populate-skip); a release with the collect flag set reaches the collector on every path (DOM/gc-after-release). Added after the mutation sweep: the continuation of an add/change event that waited for referenced resources sends only under state != disposed, tested after the wait (DOM/ready-continuation-live); a map member created on demand is written only where it exists (DOM/map-made). Added after seeding round 13: the count-down in Unsend depends on the child being sent and counted only (DOM/unsend-countdown). DOM/queue-flag-whole: see C06.",
 		Assumptions: baseAssumptions,
 		Rules: []Rule{
+			{Name: "DOM/queue-flag-whole", Min: 5, Run: ruleQueueFlagWhole, Doc: "every decision on the hold-back reasons of a subscription (queueFlag) compares the whole set with zero"},
+			{Name: "DOM/unsend-countdown", Min: 2, Run: ruleUnsendCountdown, Doc: "un-sending counts each child's sent references down whenever the child is sent and counted, whatever else holds it"},
 			{Name: "REC/gc-terminates", Min: 3, Run: ruleGCTerminates, Doc: "the collector revisits a node marked for deletion only to upgrade it to kept, and stops at kept nodes"},
 			{Name: "DOM/map-made", Min: 4, Run: ruleMapMade, Doc: "the errors / models / collections maps of a resource set are made before they are written: a failed reference is reported as an error entry, not as a crash"},
 			{Name: "DOM/ready-continuation-live", Min: 2, Run: ruleReadyContinuationLive, Doc: "an event that waited for its references is sent only if its subscription is still alive: no event for a resource the client dropped"},
@@ -157,9 +159,10 @@ func init() {
 
 	register(&Property{
 		ID: "C05", Title: "Call gating and token currency",
-		Explanation: "Decides: both sites of Cache.Call lie behind a call grant on the same continuation path, for the very action value that was checked, and not behind a direct-response status (DOM/gates); CanCall grants only through call == \"*\" or an exact list entry, error first, never for an empty list (TABLE/access); at all 8 request sites the token argument is the connection's token read in the requesting task and the requester is that same connection; the payload builders use the requester's CID() and the given token (PROV/token-cid); token/tid are written only by setToken and every token change re-checks every subscription of the connection, unconditionally (DOM/token-fanout); the cached verdict is cleared on every trigger and before loadAccess can short-circuit on it (DOM/invalidate); the token is read on the connection worker only (CTX/conn: known finding F11 — the throttled re-access reads it on a fresh goroutine); a reaccess event always reaches the subscribers of the resource, also while it is being reset (CONF/handle-event). Not decided: the CanCall list scanner for all strings; validity of an access answer in flight at trigger time. Added after seeding round 7: a token event stores the new token before the subscriptions are re-accessed (DOM/token-fanout). Added after seeding round 8: an invalid pattern in a reset's list is skipped and does not end the scan (DOM/valid-patterns). Added after seeding round 9: every re-access trigger is carried out or recorded — none is dropped because a re-check is already pending (DOM/invalidate). Added after seeding round 10: an access answer carrying an error is an error, whatever else it carries (DOM/error-wins). Added after seeding round 12: every path of ResourcePattern.Match that returns the comparison of the name with the pattern text has established that the pattern has no wildcard (TABLE/match-literal; one shape condition of the matcher, not its correctness).",
+		Explanation: "Decides: both sites of Cache.Call lie behind a call grant on the same continuation path, for the very action value that was checked, and not behind a direct-response status (DOM/gates); CanCall grants only through call == \"*\" or an exact list entry, error first, never for an empty list (TABLE/access); at all 8 request sites the token argument is the connection's token read in the requesting task and the requester is that same connection; the payload builders use the requester's CID() and the given token (PROV/token-cid); token/tid are written only by setToken and every token change re-checks every subscription of the connection, unconditionally (DOM/token-fanout); the cached verdict is cleared on every trigger and before loadAccess can short-circuit on it (DOM/invalidate); the token is read on the connection worker only (CTX/conn: known finding F11 — the throttled re-access reads it on a fresh goroutine); a reaccess event always reaches the subscribers of the resource, also while it is being reset (CONF/handle-event). Not decided: the CanCall list scanner for all strings; validity of an access answer in flight at trigger time. Added after seeding round 7: a token event stores the new token before the subscriptions are re-accessed (DOM/token-fanout). Added after seeding round 8: an invalid pattern in a reset's list is skipped and does not end the scan (DOM/valid-patterns). Added after seeding round 9: every re-access trigger is carried out or recorded — none is dropped because a re-check is already pending (DOM/invalidate). Added after seeding round 10: an access answer carrying an error is an error, whatever else it carries (DOM/error-wins). Added after seeding round 12: every path of ResourcePattern.Match that returns the comparison of the name with the pattern text has established that the pattern has no wildcard (TABLE/match-literal; one shape condition of the matcher, not its correctness). Added after seeding round 13: the method of a call/auth request reaches the entry points only behind IsValidRIDPart of that very value, on both transports (DOM/method-token).",
 		Assumptions: baseAssumptions,
 		Rules: []Rule{
+			{Name: "DOM/method-token", Min: 3, Run: ruleMethodToken, Doc: "the method name of a call/auth request is validated as one subject token (IsValidRIDPart) on every path to the connection's call/auth entry points"},
 			{Name: "TABLE/match-literal", Min: 1, Run: ruleMatchLiteral, Doc: "a system reset with a wildcard access pattern reaches every matching resource: a wildcard pattern is never matched by comparing texts"},
 			{Name: "DOM/error-wins", Min: 3, Run: ruleErrorWins, Doc: "a service answer carrying an error member is decoded as that error, whatever else it carries (an access error never grants)"},
 			{Name: "DOM/valid-patterns", Min: 1, Run: ruleValidPatterns, Doc: "a system reset re-validates the cached access of every resource matching a valid pattern of its list: an invalid pattern is skipped, it does not end the scan"},
@@ -180,9 +183,10 @@ func init() {
 
 	register(&Property{
 		ID: "C06", Title: "Access revocation on token change, reaccess event and system reset",
-		Explanation: "Decides: every store of a new token on a connection that had one is followed by a reaccess of every subscription, unconditionally per subscription (DOM/token-fanout); reaccess events bypass the not-loaded filters in the cache and in the subscription (CONF/handle-event, DOM/event-gate); the verdict is cleared and the event gate closed before the access request, the continuation validates access and reopens the gate exactly once (DOM/invalidate); denial removes all direct subscriptions and sends the unsubscribe event (DOM/revoke); system reset access patterns reach every subscriber of the base and of every cached query (DOM/reset-protocol); a reset access pattern re-checks every subscriber of a matching resource whatever the resource's state (DOM/reset-protocol, resource level); slot bookkeeping before continuations (DOM/drain-reentrancy). Not decided: timing; pattern matching (C12). Added after seeding round 8: an invalid pattern in a reset's list is skipped and does not end the scan (DOM/valid-patterns). Added after seeding round 10: the system event handler starts no goroutine: a reset and the events behind it keep their order (FIFO/handler-sync). Added after seeding round 11: the access request of a re-check reads the connection's token in the task that sends it, so a check that waited for a throttle slot carries the current token (PROV/token-cid). Added after the mutation sweep of round 11: the in-flight flag of the shared access request is lowered with every answer, in both twins (PAIR/access-inflight).",
+		Explanation: "Decides: every store of a new token on a connection that had one is followed by a reaccess of every subscription, unconditionally per subscription (DOM/token-fanout); reaccess events bypass the not-loaded filters in the cache and in the subscription (CONF/handle-event, DOM/event-gate); the verdict is cleared and the event gate closed before the access request, the continuation validates access and reopens the gate exactly once (DOM/invalidate); denial removes all direct subscriptions and sends the unsubscribe event (DOM/revoke); system reset access patterns reach every subscriber of the base and of every cached query (DOM/reset-protocol); a reset access pattern re-checks every subscriber of a matching resource whatever the resource's state (DOM/reset-protocol, resource level); slot bookkeeping before continuations (DOM/drain-reentrancy). Not decided: timing; pattern matching (C12). Added after seeding round 8: an invalid pattern in a reset's list is skipped and does not end the scan (DOM/valid-patterns). Added after seeding round 10: the system event handler starts no goroutine: a reset and the events behind it keep their order (FIFO/handler-sync). Added after seeding round 11: the access request of a re-check reads the connection's token in the task that sends it, so a check that waited for a throttle slot carries the current token (PROV/token-cid). Added after the mutation sweep of round 11: the in-flight flag of the shared access request is lowered with every answer, in both twins (PAIR/access-inflight). Added after seeding round 13: every decision on queueFlag asks whether any hold-back reason is set, so a re-access triggered while events are queued for another reason waits behind them (DOM/queue-flag-whole).",
 		Assumptions: baseAssumptions,
 		Rules: []Rule{
+			{Name: "DOM/queue-flag-whole", Min: 5, Run: ruleQueueFlagWhole, Doc: "every decision on the hold-back reasons of a subscription (queueFlag) compares the whole set with zero; a masked value is only ever stored back"},
 			{Name: "TABLE/match-literal", Min: 1, Run: ruleMatchLiteral, Doc: "a wildcard access pattern of a system reset is never matched by comparing texts"},
 			{Name: "PAIR/access-inflight", Min: 1, Run: ruleAccessInflight, Doc: "a re-check after a revocation trigger is not parked behind a request that is no longer outstanding (the in-flight flag is lowered with every answer)"},
 			{Name: "PROV/token-cid", Min: 5, Run: ruleTokenCID, Doc: "a re-check carries the token the connection holds when the request is sent, not one captured when the check was queued behind a throttle"},
@@ -246,9 +250,11 @@ func init() {
 
 	register(&Property{
 		ID: "C09", Title: "Cache entry lifecycle: subscribed before fetch, kept while used, then freed",
-		Explanation: "Decides: getSubscription counts one use on every successful return and none on an error return, errors only when an mq subscription was requested, and with subscribe=true returns only after the entry's mq subscription exists (PAIR/cache-count); callers release the use or hand it to addSubscriber exactly once; a count is released iff a membership was removed and bulk releases equal the set dropped (PAIR/membership); a late or repeated Loaded owns or releases the resource exactly once (PAIR/loaded-handover); eviction re-checks the count under the locks, addCount cancels a pending eviction, removeCount queues the entry exactly at zero, gauges follow the count (DOM/evict); get requests are issued only from addSubscriber / reset (DOM/sub-before-get); a removed entry is cleared from every index it is findable through — base (also for the empty alias), queries, links (DOM/unregister). Not decided: the eviction delay and timers, gauges reading zero at a particular moment. Added after seeding round 7: the connection-side collector marks a held node, or one reached from a kept node, kept — also over an earlier deletion mark — so a shared subscription's cache use is not given back under a live client subscription (DOM/gc-mark). Added after seeding round 8: an entry registered in the cache's index is counted on that very path, because the eviction queue is entered only by releasing a count (PAIR/cache-count). Added after seeding round 9: the use count of a cache entry is touched under the entry's mutex by takers and releasers alike (CTX/guarded-by). Added after seeding round 10: a failed get — denied access included — leaves no connection-level subscription behind (PAIR/direct-count). Added after seeding round 11: an event discarded by the cache is not fanned out either (CONF/handle-event): subscribers that dispose themselves on a delete the cache did not apply would leave their use counts behind. Added after seeding round 12: the reference throttle's queue is only appended to and popped (FIFO/queues).",
+		Explanation: "Decides: getSubscription counts one use on every successful return and none on an error return, errors only when an mq subscription was requested, and with subscribe=true returns only after the entry's mq subscription exists (PAIR/cache-count); callers release the use or hand it to addSubscriber exactly once; a count is released iff a membership was removed and bulk releases equal the set dropped (PAIR/membership); a late or repeated Loaded owns or releases the resource exactly once (PAIR/loaded-handover); eviction re-checks the count under the locks, addCount cancels a pending eviction, removeCount queues the entry exactly at zero, gauges follow the count (DOM/evict); get requests are issued only from addSubscriber / reset (DOM/sub-before-get); a removed entry is cleared from every index it is findable through — base (also for the empty alias), queries, links (DOM/unregister). Not decided: the eviction delay and timers, gauges reading zero at a particular moment. Added after seeding round 7: the connection-side collector marks a held node, or one reached from a kept node, kept — also over an earlier deletion mark — so a shared subscription's cache use is not given back under a live client subscription (DOM/gc-mark). Added after seeding round 8: an entry registered in the cache's index is counted on that very path, because the eviction queue is entered only by releasing a count (PAIR/cache-count). Added after seeding round 9: the use count of a cache entry is touched under the entry's mutex by takers and releasers alike (CTX/guarded-by). Added after seeding round 10: a failed get — denied access included — leaves no connection-level subscription behind (PAIR/direct-count). Added after seeding round 11: an event discarded by the cache is not fanned out either (CONF/handle-event): subscribers that dispose themselves on a delete the cache did not apply would leave their use counts behind. Added after seeding round 12: the reference throttle's queue is only appended to and popped (FIFO/queues). Added after seeding round 13: DOM/unsend-countdown (see C02). Added after seeding round 13: PAIR/query-lock also serves this property — a query variant skipped without giving back its event lock blocks the entry's queue, and with it every later release of the entry.",
 		Assumptions: baseAssumptions,
 		Rules: []Rule{
+			{Name: "PAIR/query-lock", Min: 1, Run: ruleQueryLock, Doc: "every lock a query event places on the entry's event queue is released: the entry's queued releases and evictions are not stranded behind it"},
+			{Name: "DOM/unsend-countdown", Min: 2, Run: ruleUnsendCountdown, Doc: "un-sending counts each child's sent references down whenever the child is sent and counted"},
 			{Name: "PAIR/release-on-teardown", Min: 4, Run: ruleReleaseOnTeardown, Doc: "an evicted cache entry's event subscription is released"},
 			{Name: "FIFO/queues", Min: 1, Run: ruleFIFO("rescache.Throttle.queue"), Doc: "a disposed subscription drops no get request waiting in the shared reference throttle: the cache entries those requests belong to already count the subscriber and would never be released"},
 			{Name: "PAIR/alias-recorded", Min: 1, Run: ruleAliasRecorded, Doc: "every alias of a cache resource is on its alias list, so unregister clears it"},
@@ -289,9 +295,10 @@ func init() {
 
 	register(&Property{
 		ID: "C11", Title: "Disconnect cleanup at any moment",
-		Explanation: "Decides: wsConn.dispose sets the flag and closes the worker channel in one critical section, removes the connection from the cache and from token-reset fan-out, unsubscribes the connection events, disposes every subscription, and leaves the registry (DOM/dispose); Subscription.Dispose releases references and exactly one cache use; Enqueue/Subscribe/Unsubscribe refuse a disposing connection; a late Loaded releases the cache use (PAIR/loaded-handover); late access answers are absorbed (DOM/verdict-store); no call/auth request is issued by a continuation of a disposed connection (CTX/post-dispose); a refused task never strands a throttle slot of other connections (PAIR/throttle-slot); temporary HTTP connections are disposed exactly once on every exit (LIN/temp-conn); sends on the worker channel cannot hit the close (CHAN); teardown takes the connection and cache mutexes in an order that cannot deadlock against the token-reset fan-out (LOCK/order). Not decided: 'no effect on other connections' as a runtime fact beyond the pairing rules of C09. Added after seeding round 7: every service request reads the connection's token and is therefore confined to the connection's worker (CTX/conn), whose queue refuses tasks after the close; a named function that sends a call/auth request hands the dispose test to each closure calling it (CTX/post-dispose). Added after seeding round 8: no function run with the event subscription's mutex held (the tasks of its worker) calls something that takes that mutex again (LOCK/order with held-on-entry states). Added after seeding round 9: a re-access trigger on a disposed subscription starts no access request (DOM/invalidate). Added after seeding round 11: the disposing test that keeps a continuation from sending a call/auth request lies in the continuation itself — a test in front of the creation of the continuation says nothing about the time it runs (CTX/post-dispose). Added after seeding round 12: PAIR/membership serves this property too. Added after the mutation sweep: unsubscribeConn releases the connection's messaging-system subscription whenever there is one, RemoveConn takes the connection out of the token-reset registry, the cache's eviction releases the entry's event subscription (PAIR/release-on-teardown).",
+		Explanation: "Decides: wsConn.dispose sets the flag and closes the worker channel in one critical section, removes the connection from the cache and from token-reset fan-out, unsubscribes the connection events, disposes every subscription, and leaves the registry (DOM/dispose); Subscription.Dispose releases references and exactly one cache use; Enqueue/Subscribe/Unsubscribe refuse a disposing connection; a late Loaded releases the cache use (PAIR/loaded-handover); late access answers are absorbed (DOM/verdict-store); no call/auth request is issued by a continuation of a disposed connection (CTX/post-dispose); a refused task never strands a throttle slot of other connections (PAIR/throttle-slot); temporary HTTP connections are disposed exactly once on every exit (LIN/temp-conn); sends on the worker channel cannot hit the close (CHAN); teardown takes the connection and cache mutexes in an order that cannot deadlock against the token-reset fan-out (LOCK/order). Not decided: 'no effect on other connections' as a runtime fact beyond the pairing rules of C09. Added after seeding round 7: every service request reads the connection's token and is therefore confined to the connection's worker (CTX/conn), whose queue refuses tasks after the close; a named function that sends a call/auth request hands the dispose test to each closure calling it (CTX/post-dispose). Added after seeding round 8: no function run with the event subscription's mutex held (the tasks of its worker) calls something that takes that mutex again (LOCK/order with held-on-entry states). Added after seeding round 9: a re-access trigger on a disposed subscription starts no access request (DOM/invalidate). Added after seeding round 11: the disposing test that keeps a continuation from sending a call/auth request lies in the continuation itself — a test in front of the creation of the continuation says nothing about the time it runs (CTX/post-dispose). Added after seeding round 12: PAIR/membership serves this property too. Added after the mutation sweep: unsubscribeConn releases the connection's messaging-system subscription whenever there is one, RemoveConn takes the connection out of the token-reset registry, the cache's eviction releases the entry's event subscription (PAIR/release-on-teardown). Added after seeding round 13: DOM/ref-shapes also serves this property — ReleaseRPCResources returns at once for a disposed subscription, so a frame released after the disconnect neither re-opens the event gate nor processes queued events.",
 		Assumptions: baseAssumptions,
 		Rules: []Rule{
+			{Name: "DOM/ref-shapes", Min: 1, Run: ruleRefShapes, Doc: "a release that arrives for a disposed subscription returns before it touches state or event queue"},
 			{Name: "PAIR/release-on-teardown", Min: 4, Run: ruleReleaseOnTeardown, Doc: "a closed connection's messaging-system subscription is released and the connection leaves the token-reset registry"},
 			{Name: "DOM/ready-continuation-live", Min: 2, Run: ruleReadyContinuationLive, Doc: "nothing is sent, and no reference counted as sent, for a subscription disposed while an event waited for its references"},
 			{Name: "LOCK/guarded-fields", Min: 40, Run: ruleGuardedFields, Doc: "the connection's queue and the cache's connection registry are touched under their mutexes while a connection goes away"},
@@ -314,9 +321,10 @@ func init() {
 
 	register(&Property{
 		ID: "C12", Title: "System reset re-fetches exactly the matching resources with a correct diff",
-		Explanation: "Decides the plumbing and protocol clauses only: a matching entry is re-fetched once, with get.<name> and its normalised query, unless a reset is already outstanding; the resetting flag is set before the request and cleared before the answer is processed, in both the throttled and the unthrottled twin; the base resource (unless it is a link) and every cached query variant are visited exactly once, for resources and for access (DOM/reset-protocol); derived events go through handleEvent, state events are dropped only while resetting (CONF/handle-event); invalid patterns match nothing at the recogniser level (TABLE/reject-set); only valid patterns are matched (DOM/valid-patterns); content is replaced copy-on-write (DOM/copy-on-write). NOT decided — the heart of the property: wildcard matching semantics for all names, that the model diff and the LCS edit script transform old into new with indexes in range, that unchanged content yields no event. Added after seeding round 8: TABLE/lcs-exhaustive (see C03) for the derived add/remove sequence of a re-fetched collection. Added after seeding round 11: the kind of an answer is decided by which member is present, never by its size, so a reset that empties a resource produces its remove / delete-action events (TABLE/kind-by-presence); a run of adds emitted by one ascending loop moves its index along (TABLE/add-run).  Added after seeding round 12: every path of ResourcePattern.Match that returns the comparison of the name with the pattern text has established that the pattern has no wildcard (TABLE/match-literal; one shape condition of the matcher, not its correctness). Added after seeding round 12: the marking of missing keys runs for every re-fetched model (DOM/diff-unconditional).",
+		Explanation: "Decides the plumbing and protocol clauses only: a matching entry is re-fetched once, with get.<name> and its normalised query, unless a reset is already outstanding; the resetting flag is set before the request and cleared before the answer is processed, in both the throttled and the unthrottled twin; the base resource (unless it is a link) and every cached query variant are visited exactly once, for resources and for access (DOM/reset-protocol); derived events go through handleEvent, state events are dropped only while resetting (CONF/handle-event); invalid patterns match nothing at the recogniser level (TABLE/reject-set); only valid patterns are matched (DOM/valid-patterns); content is replaced copy-on-write (DOM/copy-on-write). NOT decided — the heart of the property: wildcard matching semantics for all names, that the model diff and the LCS edit script transform old into new with indexes in range, that unchanged content yields no event. Added after seeding round 8: TABLE/lcs-exhaustive (see C03) for the derived add/remove sequence of a re-fetched collection. Added after seeding round 11: the kind of an answer is decided by which member is present, never by its size, so a reset that empties a resource produces its remove / delete-action events (TABLE/kind-by-presence); a run of adds emitted by one ascending loop moves its index along (TABLE/add-run).  Added after seeding round 12: every path of ResourcePattern.Match that returns the comparison of the name with the pattern text has established that the pattern has no wildcard (TABLE/match-literal; one shape condition of the matcher, not its correctness). Added after seeding round 12: the marking of missing keys runs for every re-fetched model (DOM/diff-unconditional). Added after seeding round 13: DOM/invalidate (see C05/C06) also serves this property — a reset access pattern re-requests access with the cached verdict cleared.",
 		Assumptions: baseAssumptions,
 		Rules: []Rule{
+			{Name: "DOM/invalidate", Min: 1, Run: ruleInvalidate, Doc: "the access re-check a reset asks for clears the cached verdict before it asks again"},
 			{Name: "DOM/diff-unconditional", Min: 1, Run: ruleDiffUnconditional, Doc: "every cached key missing from a re-fetched model is marked deleted, whatever the sizes of the two models"},
 			{Name: "TABLE/match-literal", Min: 1, Run: ruleMatchLiteral, Doc: "a wildcard pattern is never matched by comparing texts"},
 			{Name: "TABLE/add-run", Min: 0, Run: ruleAddRun, Doc: "derived adds of one ascending loop move their index along (adds at one fixed index arrive reversed)"},
@@ -336,9 +344,10 @@ func init() {
 
 	register(&Property{
 		ID: "C13", Title: "Query resources: shared normalised queries, atomic query-event handling",
-		Explanation: "Decides: the queue is locked with len(queries) of the map that is iterated unmodified, each iteration releases exactly one lock on every outcome of its request (all early returns are inside the unlock task), nothing returns between locking and the end of the iteration, locks are installed only for a positive count; the request goes to the event's subject with the range key as query; answers are applied through per-iteration values, full model/collection answers only behind the matching kind test (PAIR/query-lock); no deferred closure captures a shared loop variable (DOM/loopvar); an initial load re-initialises an entry only under the not-loaded test of that same entry, so an alias arriving later cannot reset a shared resource (PAIR/version-bump); a repeated Loaded is ignored (LIN/loaded-once); Enqueue wakes no worker while locks are set (DOM/inch-send); unregister clears base / queries / links including the empty alias (DOM/unregister); every outcome of a get response collects the waiting subscribers (DOM/answer-waiting). Not decided: the capacity countdown arithmetic of the lock list; two aliasing gets in flight beyond the loaded-once guard. Added after seeding round 8: a query request that got no answer changes nothing — every path of its completion that applies something has established that the request error is nil (DOM/query-request-error). Added after seeding round 10: a deleted query resource drops its subscribers (PAIR/membership). Added after seeding round 11: a query event is dropped only by the listed discards — nothing cached under a query, malformed payload, missing subject (CONF/query-event-discards). Added after seeding round 12: PAIR/alias-recorded (see C15); events are fanned out to the subscriber set as it is (DOM/fanout-set).",
+		Explanation: "Decides: the queue is locked with len(queries) of the map that is iterated unmodified, each iteration releases exactly one lock on every outcome of its request (all early returns are inside the unlock task), nothing returns between locking and the end of the iteration, locks are installed only for a positive count; the request goes to the event's subject with the range key as query; answers are applied through per-iteration values, full model/collection answers only behind the matching kind test (PAIR/query-lock); no deferred closure captures a shared loop variable (DOM/loopvar); an initial load re-initialises an entry only under the not-loaded test of that same entry, so an alias arriving later cannot reset a shared resource (PAIR/version-bump); a repeated Loaded is ignored (LIN/loaded-once); Enqueue wakes no worker while locks are set (DOM/inch-send); unregister clears base / queries / links including the empty alias (DOM/unregister); every outcome of a get response collects the waiting subscribers (DOM/answer-waiting). Not decided: the capacity countdown arithmetic of the lock list; two aliasing gets in flight beyond the loaded-once guard. Added after seeding round 8: a query request that got no answer changes nothing — every path of its completion that applies something has established that the request error is nil (DOM/query-request-error). Added after seeding round 10: a deleted query resource drops its subscribers (PAIR/membership). Added after seeding round 11: a query event is dropped only by the listed discards — nothing cached under a query, malformed payload, missing subject (CONF/query-event-discards). Added after seeding round 12: PAIR/alias-recorded (see C15); events are fanned out to the subscriber set as it is (DOM/fanout-set). Added after seeding round 13: whether a query variant is asked depends on its load state only — not on a reset under way (DOM/query-event-all).",
 		Assumptions: baseAssumptions,
 		Rules: []Rule{
+			{Name: "DOM/query-event-all", Min: 1, Run: ruleQueryEventAll, Doc: "a query event is put to every loaded query variant: the skip decision reads the variant's load state only"},
 			{Name: "DOM/fanout-set", Min: 2, Run: ruleFanoutSet, Doc: "events derived from a query answer reach every subscriber of the shared resource, also one aliased onto it after it was warm"},
 			{Name: "PAIR/alias-recorded", Min: 1, Run: ruleAliasRecorded, Doc: "every alias of a normalised query resource is on its alias list"},
 			{Name: "CONF/query-event-discards", Min: 1, Run: ruleQueryEventDiscards, Doc: "a query event is dropped only by the listed discards (nothing cached under a query, malformed payload, missing subject): otherwise one request per cached query goes out"},
@@ -375,9 +384,10 @@ func init() {
 
 	register(&Property{
 		ID: "C15", Title: "Crash freedom and containment of malformed input",
-		Explanation: "Decides the panic classes that have a crisp rule: decoders return no data with an error, so log-and-continue callers cannot apply a partial message, and return the decoded object whenever they report success, so callers that dereference it cannot hit nil (DOM/all-or-nothing); decoded indexes reach slice operations only inside [0,len] with the exact bound for element access vs slicing, content is dereferenced only for the right kind (DOM/index-kind-guard); optional decoded pointers are dereferenced under their nil test or a predicate implying it, null elements of decoded pointer slices are rejected (DOM/opt-deref); explicit panics and unchecked type assertions are the listed ones (CENSUS/panic); no send on a channel that may have been closed (CHAN: known finding F5 for Cache.inCh); recursive cycles are the listed ones with checked guards (REC/census); the mutex acquisition graph is acyclic (LOCK/order); one Done per throttle slot, so the 'negative running counter' panic is unreachable (PAIR/throttle-slot); a failed or malformed re-fetch closes the reset window, so later valid messages are processed normally (DOM/reset-protocol). Not decided: index safety of lcs, ResourcePattern.Match, byte scans in UnmarshalJSON, encoder buffers; JSON library behaviour; memory exhaustion. Added after seeding round 8: a failed query request releases the event lock, so later messages are still processed (PAIR/query-lock). Added after seeding round 10: a value object naming two of rid, action and data is refused (TABLE/value-object); an answer carrying an error is an error (DOM/error-wins). Added after seeding round 11: every message is decoded as a whole — json.Unmarshal, or a streaming decode followed by a probe for trailing input (TABLE/whole-input); the kind of an answer is decided by the member that is present (TABLE/kind-by-presence).  Added after seeding round 12: an alias of a normalised query resource — base pointer or links entry — is recorded in the resource's alias list on the same path (PAIR/alias-recorded). Added after the mutation sweep (generic crash-freedom rules, each over every site of its kind in the repository): values of comma-ok lookups are dereferenced only where found (DOM/lookup-ok); elements at constant positions are read only under a length test (DOM/const-index); pointer members that are nil for part of their object's life are used only under their nil test (DOM/optional-field); results of fallible calls are looked into only after the error was found nil, and decoders report success only under err == nil of json.Unmarshal (ERR/checked-before-use); map members created on demand are written only where they exist (DOM/map-made); every function leaves each mutex as it found it (LOCK/balance) and touches the fields a mutex guards only with it held (LOCK/guarded-fields); the collector's graph walks terminate on cycles (REC/gc-terminates).",
+		Explanation: "Decides the panic classes that have a crisp rule: decoders return no data with an error, so log-and-continue callers cannot apply a partial message, and return the decoded object whenever they report success, so callers that dereference it cannot hit nil (DOM/all-or-nothing); decoded indexes reach slice operations only inside [0,len] with the exact bound for element access vs slicing, content is dereferenced only for the right kind (DOM/index-kind-guard); optional decoded pointers are dereferenced under their nil test or a predicate implying it, null elements of decoded pointer slices are rejected (DOM/opt-deref); explicit panics and unchecked type assertions are the listed ones (CENSUS/panic); no send on a channel that may have been closed (CHAN: known finding F5 for Cache.inCh); recursive cycles are the listed ones with checked guards (REC/census); the mutex acquisition graph is acyclic (LOCK/order); one Done per throttle slot, so the 'negative running counter' panic is unreachable (PAIR/throttle-slot); a failed or malformed re-fetch closes the reset window, so later valid messages are processed normally (DOM/reset-protocol). Not decided: index safety of lcs, ResourcePattern.Match, byte scans in UnmarshalJSON, encoder buffers; JSON library behaviour; memory exhaustion. Added after seeding round 8: a failed query request releases the event lock, so later messages are still processed (PAIR/query-lock). Added after seeding round 10: a value object naming two of rid, action and data is refused (TABLE/value-object); an answer carrying an error is an error (DOM/error-wins). Added after seeding round 11: every message is decoded as a whole — json.Unmarshal, or a streaming decode followed by a probe for trailing input (TABLE/whole-input); the kind of an answer is decided by the member that is present (TABLE/kind-by-presence).  Added after seeding round 12: an alias of a normalised query resource — base pointer or links entry — is recorded in the resource's alias list on the same path (PAIR/alias-recorded). Added after the mutation sweep (generic crash-freedom rules, each over every site of its kind in the repository): values of comma-ok lookups are dereferenced only where found (DOM/lookup-ok); elements at constant positions are read only under a length test (DOM/const-index); pointer members that are nil for part of their object's life are used only under their nil test (DOM/optional-field); results of fallible calls are looked into only after the error was found nil, and decoders report success only under err == nil of json.Unmarshal (ERR/checked-before-use); map members created on demand are written only where they exist (DOM/map-made); every function leaves each mutex as it found it (LOCK/balance) and touches the fields a mutex guards only with it held (LOCK/guarded-fields); the collector's graph walks terminate on cycles (REC/gc-terminates). Added after seeding round 13: an element read at the position of a loop counter lies behind some test of the counter, so a scan cannot run off the end of an input made of skipped bytes only (DOM/loop-index; decides that a test exists, not that it is the right one).",
 		Assumptions: baseAssumptions,
 		Rules: []Rule{
+			{Name: "DOM/loop-index", Min: 0, Run: ruleLoopIndex, Doc: "an element read at the position of a counting loop variable lies behind a test of that variable"},
 			{Name: "DOM/optional-hook", Min: 3, Run: ruleOptionalHook, Doc: "a hook that may be unset is called only under its non-nil test"},
 			{Name: "REC/gc-terminates", Min: 3, Run: ruleGCTerminates, Doc: "the collector's walks over the reference graph end on every graph, cycles included (no stack overflow on the connection worker)"},
 			{Name: "DOM/map-made", Min: 4, Run: ruleMapMade, Doc: "a map member that is created on demand is written only where it is known to exist"},
@@ -409,9 +419,11 @@ func init() {
 
 	register(&Property{
 		ID: "C16", Title: "HTTP resources are a faithful, finite rendering of the resource graph",
-		Explanation: "Decides: in both encoders the expansion path is pushed and popped on every successful path, the cycle test and the error-leaf return precede the push, the recursive descent is guarded by the cycle test and the push, so the expansion terminates on cyclic graphs and later siblings are not cut (PAIR/enc-path); the subscription is handed to the renderer before its resources are released, so the rendering is of the graph as cached at response time and not of one that queued events have already changed (PAIR/rpc-resources); HEAD and GET take the same path and HEAD is tested nowhere else; the two encoders agree on the value kinds (TWIN/encode-value); resource responses set Location from the unexpanded rid (PROV/cid-taint clause of C10); every successful path of both encoders, for collections and models of 0, 1 and 2 elements, emits exactly one well-formed JSON value skeleton, and every non-literal write is JSON by construction — json.Marshal, a json.RawMessage from the decoder, an encoded error (PAIR/emit). Not decided — the core: equality of the rendering with the recursive expansion for every graph; JSON well-formedness beyond the guarded structure; RIDToPath/PathToRID as inverse maps. Added after seeding round 7: cached model/collection values already handed to subscriptions are never written in place, so a pending GET renders a state the cache actually had (DOM/copy-on-write). Added after seeding round 8: no error rewrite distinguishes HEAD from GET (TABLE/method-rewrite). Added after seeding round 9: the path reader refuses dots, so the href writer leaves none (TABLE/href-dots). Added after seeding round 10: OnReady runs its callback at once only for a ready subscription, so a GET is rendered only when everything below the resource is loaded (DOM/onready-inline). Added after seeding round 12: the dot test of the path readers is applied behind the prefix cut (TABLE/dots-after-prefix).",
+		Explanation: "Decides: in both encoders the expansion path is pushed and popped on every successful path, the cycle test and the error-leaf return precede the push, the recursive descent is guarded by the cycle test and the push, so the expansion terminates on cyclic graphs and later siblings are not cut (PAIR/enc-path); the subscription is handed to the renderer before its resources are released, so the rendering is of the graph as cached at response time and not of one that queued events have already changed (PAIR/rpc-resources); HEAD and GET take the same path and HEAD is tested nowhere else; the two encoders agree on the value kinds (TWIN/encode-value); resource responses set Location from the unexpanded rid (PROV/cid-taint clause of C10); every successful path of both encoders, for collections and models of 0, 1 and 2 elements, emits exactly one well-formed JSON value skeleton, and every non-literal write is JSON by construction — json.Marshal, a json.RawMessage from the decoder, an encoded error (PAIR/emit). Not decided — the core: equality of the rendering with the recursive expansion for every graph; JSON well-formedness beyond the guarded structure; RIDToPath/PathToRID as inverse maps. Added after seeding round 7: cached model/collection values already handed to subscriptions are never written in place, so a pending GET renders a state the cache actually had (DOM/copy-on-write). Added after seeding round 8: no error rewrite distinguishes HEAD from GET (TABLE/method-rewrite). Added after seeding round 9: the path reader refuses dots, so the href writer leaves none (TABLE/href-dots). Added after seeding round 10: OnReady runs its callback at once only for a ready subscription, so a GET is rendered only when everything below the resource is loaded (DOM/onready-inline). Added after seeding round 12: the dot test of the path readers is applied behind the prefix cut (TABLE/dots-after-prefix). Added after seeding round 13: the method taken from the HTTP path is one valid subject token (DOM/method-token). Added after seeding round 13: the path handed to PathToRID / PathToRIDAction comes from the escaped request path, so parts are split before they are unescaped (DOM/raw-path).",
 		Assumptions: baseAssumptions,
 		Rules: []Rule{
+			{Name: "DOM/raw-path", Min: 3, Run: ruleRawPath, Doc: "the request path split into resource-id parts is the escaped one (URL.RawPath / EscapedPath)"},
+			{Name: "DOM/method-token", Min: 3, Run: ruleMethodToken, Doc: "the method name taken from an HTTP path is validated as one subject token before the call"},
 			{Name: "TABLE/dots-after-prefix", Min: 2, Run: ruleDotsAfterPrefix, Doc: "the dot test of the HTTP path readers looks at the part behind the api prefix, so every configured prefix works"},
 			{Name: "DOM/onready-inline", Min: 1, Run: ruleOnReadyInline, Doc: "OnReady runs its callback at once only for a ready subscription (everything below it loaded)"},
 			{Name: "TABLE/href-dots", Min: 1, Run: ruleHrefDots, Doc: "the path reader refuses dots, so the href writer leaves none: every id-derived piece passes the . to / replacement"},
@@ -447,9 +459,11 @@ func init() {
 
 	register(&Property{
 		ID: "C18", Title: "Messaging adapter contract: one completion per request, ordered events",
-		Explanation: "Decides for nats/nats.go: every path of SendRequest consumes the completion exactly once (three immediate-error goroutines or the pending entry) (LIN/sendrequest); every invocation of a request completion is preceded by the removal of its pending entry in the critical section of the lookup, a pre-response removes and completes nothing, event callbacks are invoked synchronously in publish order (PATHS/remove-before-invoke); the subject length is checked against the control-line limit before ChanSubscribe/PublishRequest; NoReconnect and the closed handler are installed, one listener goroutine; no deferred closure captures the listener's loop variable (DOM/loopvar); the only method called on a nats.go subscription is Unsubscribe — no delivery limit that a pre-response could use up (DOM/nats-plumbing). Not decided: timing of timeouts and their restart, disconnect detection by nats.go. Added after seeding round 7: whoever removes a found pending request from the map completes it on every path (PATHS/remove-before-invoke). Added after seeding round 9: the closed handler is registered with the connection unconditionally (DOM/nats-plumbing). Added after seeding round 10: completions are invoked with the adapter's mutex released (PATHS/remove-before-invoke). Added after seeding round 11: the length test that refuses a request with system.subjectTooLong measures the subject and the very inbox string that is sent (DOM/control-line-parts). Added after seeding round 12: the listener takes a message for a pre-response exactly when its first byte is an ASCII letter, decided for all 256 values by constant propagation (TABLE/meta-first-byte). Added after the mutation sweep (the repository's suite never executes nats/nats.go): per message at most one callback, the no-responders completion exactly for an empty 503 message on a request inbox, only request inboxes are forgotten (CONF/nats-listener); failures are reported with an error that is set and success never comes empty-handed (DOM/result-or-error); a valid timeout pre-response stops the running timeout once and, if that succeeded, arms a timer that runs onTimeout (CONF/nats-premeta); Connect/close/Close/onError set up and tear down the adapter's state completely (CONF/nats-lifecycle); looked-up pending entries, first bytes and optional timers are touched only under their guards (DOM/lookup-ok, DOM/const-index, DOM/optional-field); every function leaves the adapter's mutex as it found it and touches the pending map only under it (LOCK/balance, LOCK/guarded-fields).",
+		Explanation: "Decides for nats/nats.go: every path of SendRequest consumes the completion exactly once (three immediate-error goroutines or the pending entry) (LIN/sendrequest); every invocation of a request completion is preceded by the removal of its pending entry in the critical section of the lookup, a pre-response removes and completes nothing, event callbacks are invoked synchronously in publish order (PATHS/remove-before-invoke); the subject length is checked against the control-line limit before ChanSubscribe/PublishRequest; NoReconnect and the closed handler are installed, one listener goroutine; no deferred closure captures the listener's loop variable (DOM/loopvar); the only method called on a nats.go subscription is Unsubscribe — no delivery limit that a pre-response could use up (DOM/nats-plumbing). Not decided: timing of timeouts and their restart, disconnect detection by nats.go. Added after seeding round 7: whoever removes a found pending request from the map completes it on every path (PATHS/remove-before-invoke). Added after seeding round 9: the closed handler is registered with the connection unconditionally (DOM/nats-plumbing). Added after seeding round 10: completions are invoked with the adapter's mutex released (PATHS/remove-before-invoke). Added after seeding round 11: the length test that refuses a request with system.subjectTooLong measures the subject and the very inbox string that is sent (DOM/control-line-parts). Added after seeding round 12: the listener takes a message for a pre-response exactly when its first byte is an ASCII letter, decided for all 256 values by constant propagation (TABLE/meta-first-byte). Added after the mutation sweep (the repository's suite never executes nats/nats.go): per message at most one callback, the no-responders completion exactly for an empty 503 message on a request inbox, only request inboxes are forgotten (CONF/nats-listener); failures are reported with an error that is set and success never comes empty-handed (DOM/result-or-error); a valid timeout pre-response stops the running timeout once and, if that succeeded, arms a timer that runs onTimeout (CONF/nats-premeta); Connect/close/Close/onError set up and tear down the adapter's state completely (CONF/nats-lifecycle); looked-up pending entries, first bytes and optional timers are touched only under their guards (DOM/lookup-ok, DOM/const-index, DOM/optional-field); every function leaves the adapter's mutex as it found it and touches the pending map only under it (LOCK/balance, LOCK/guarded-fields). DOM/loop-index: see C15. Added after seeding round 13: only Close and the slow-consumer branch of the error handler reach the shutdown that discards the pending requests (WHO/nats-discard).",
 		Assumptions: append([]string{"nats.go delivers at most what was published; timerqueue fires each entry at most once"}, baseAssumptions...),
 		Rules: []Rule{
+			{Name: "WHO/nats-discard", Min: 3, Run: ruleNatsDiscard, Doc: "the pending map and the timeout queue of the NATS adapter are discarded only through the owner's Close and the slow-consumer shutdown, never by a connection event"},
+			{Name: "DOM/loop-index", Min: 0, Run: ruleLoopIndex, Doc: "an element read at the position of a counting loop variable lies behind a test of that variable"},
 			{Name: "LOCK/guarded-fields", Min: 40, Run: ruleGuardedFields, Doc: "the pending map, the connection and the timeout queue are touched under the adapter's mutex"},
 			{Name: "LOCK/balance", Min: 20, Run: ruleLockBalance, Doc: "every function of the adapter leaves its mutex as it found it"},
 			{Name: "DOM/optional-field", Min: 10, Run: ruleOptionalField, Doc: "the extended-timeout timer of a request is stopped only where it exists"},
@@ -474,9 +488,10 @@ func init() {
 
 	register(&Property{
 		ID: "C19", Title: "Throttles bound outstanding requests and never stall",
-		Explanation: "Decides: running++ only below the limit under the throttle mutex, Done on every non-panic path either decrements or hands the slot to the head of the queue, FIFO (DOM/throttle, FIFO/queues) — so running <= limit is inductive and no slot is lost; each governed closure calls Done exactly once on every continuation path and outside any task the connection may refuse (PAIR/throttle-slot); no zero-limit throttle is created (DOM/limit-positive); throttled and unthrottled twins agree (covered by the same path rules on both); a subscription keeps the throttle of the tree it was loaded in until it is disposed or its loading failed (WHO/throttle). Not decided: the number of outstanding requests as a runtime quantity; global progress under arbitrary answer orders beyond 'every completion frees or hands over exactly one slot'. Added after seeding round 7: every combinator between Throttle.Add and the Done of a governed request invokes its continuation on every path — also for a disposing connection (PAIR/throttle-slot, strict hops). Added after seeding round 8: with a positive limit the throttle is created on every path — no estimate of the fan-out lets governed requests out unthrottled (DOM/throttle). Added after seeding round 10: the throttle's capacity decision and its consequence (queue the closure / take the slot) lie in one critical section (DOM/throttle).",
+		Explanation: "Decides: running++ only below the limit under the throttle mutex, Done on every non-panic path either decrements or hands the slot to the head of the queue, FIFO (DOM/throttle, FIFO/queues) — so running <= limit is inductive and no slot is lost; each governed closure calls Done exactly once on every continuation path and outside any task the connection may refuse (PAIR/throttle-slot); no zero-limit throttle is created (DOM/limit-positive); throttled and unthrottled twins agree (covered by the same path rules on both); a subscription keeps the throttle of the tree it was loaded in until it is disposed or its loading failed (WHO/throttle). Not decided: the number of outstanding requests as a runtime quantity; global progress under arbitrary answer orders beyond 'every completion frees or hands over exactly one slot'. Added after seeding round 7: every combinator between Throttle.Add and the Done of a governed request invokes its continuation on every path — also for a disposing connection (PAIR/throttle-slot, strict hops). Added after seeding round 8: with a positive limit the throttle is created on every path — no estimate of the fan-out lets governed requests out unthrottled (DOM/throttle). Added after seeding round 10: the throttle's capacity decision and its consequence (queue the closure / take the slot) lie in one critical section (DOM/throttle). Added after seeding round 13: the throttle handed down the subscribe / reset call chains is the one received, on every path (PROV/throttle-through).",
 		Assumptions: append([]string{"C18: each governed request completes"}, baseAssumptions...),
 		Rules: []Rule{
+			{Name: "PROV/throttle-through", Min: 5, Run: ruleThrottleThrough, Doc: "a function that is given a throttle hands on that throttle — never nil on some path — to every callee that takes one"},
 			{Name: "LOCK/guarded-fields", Min: 40, Run: ruleGuardedFields, Doc: "the throttle's counter and queue are touched under its mutex only"},
 			{Name: "PAIR/access-inflight", Min: 1, Run: ruleAccessInflight, Doc: "one access request per subscription is outstanding at a time (the in-flight flag is raised before the request is sent), so the throttle governs what it is meant to govern"},
 			{Name: "DOM/drain-reentrancy", Min: 2, Run: ruleDrainReentrancy, Doc: "a deferred check released from inside an access callback finds the in-flight flag cleared and is sent"},
